@@ -560,6 +560,22 @@ func runFetch(c Case, res *lib.Result) string {
 				res.Fail("repush-digest-changed", "the target does not hold the manifest under its original digest", c)
 			}
 		}
+		// ... and into an OCI layout: the file stored under the manifest's digest holds exactly the bytes fetched
+		lay, lerr := os.MkdirTemp("", "c02-repush-")
+		if lerr == nil {
+			defer os.RemoveAll(lay)
+			lr, _ := ref.New("ocidir://" + lay + ":v1")
+			if err := rc.ManifestPut(ctx, lr, m); err != nil {
+				res.Fail("repush-failed target=layout", "ManifestPut of a fetched manifest into a layout failed: "+err.Error(), c)
+			} else {
+				dg := m.GetDescriptor().Digest
+				fb, ferr := os.ReadFile(filepath.Join(lay, "blobs", dg.Algorithm().String(), dg.Encoded()))
+				if ferr != nil || !bytes.Equal(fb, raw) {
+					res.Fail("repush-changed-bytes target=layout", fmt.Sprintf("the layout file under %s holds %d bytes that differ from the %d bytes fetched (read error: %v)", dg, len(fb), len(raw), ferr), c)
+				}
+			}
+			res.Count("repush-layout")
+		}
 		res.Count("repush")
 	}
 	return coqNew(c2, o, raw)
